@@ -43,7 +43,8 @@ class Contract:
         self.externals = kw.pop("externals", {})
         self.opts = kw.pop("opts", {})
         self.init = kw.pop("init", {})
-        self.use_lemmas = kw.pop("use_lemmas", [])  # [(lemma name, {lemma var: expression in this function's entry state})]  # field -> defining expression (class invariant given as an equation)
+        self.use_lemmas = kw.pop("use_lemmas", [])
+        self.result_elem = kw.pop("result_elem", None)  # predicate over `elem` holding for every element of a list result  # [(lemma name, {lemma var: expression in this function's entry state})]  # field -> defining expression (class invariant given as an equation)
         if kw:
             raise TypeError("unknown contract keys %r" % list(kw))
 
@@ -644,6 +645,9 @@ class World:
         fr.contract = c
         fr.old = None
         label = "%s.call[%s]" % (eng.cur_label, fi.name if not fi.cls else fi.cls + "." + fi.name)
+        for g, ty in c.ghost.items():
+            if g not in eng.ghost:
+                eng.ghost[g] = X.ghost_init(eng, g, ty)
         selfobj = locs.get("self")
         if isinstance(selfobj, VObj):
             for k, t in c.fields.items():
@@ -653,7 +657,7 @@ class World:
         try:
             for i, r in enumerate(c.requires):
                 eng.in_callee_model = saved
-                eng.oblige("%s.requires[%d]" % (label, i), eng.truth(eng.eval_str(r, fr)), kind="call-requires", site=getattr(node, "lineno", None), note=r)
+                eng.oblige("%s.requires[%d]" % (label, i), _clause(eng, r, fr), kind="call-requires", site=getattr(node, "lineno", None), note=r)
                 eng.in_callee_model = True
                 eng.assume(eng.eval_merged(lambda r=r: eng.truth(eng.eval_str(r, fr))))
             # pre-state snapshot for old() and for raises conditions
@@ -663,7 +667,7 @@ class World:
             oldfr.ghostview = snapshot(eng.ghost)
             # raises (may): decided before the havoc, conditions over the pre-state
             for exc, cond in c.raises.items():
-                condv = True if cond is True else eng.truth(eng.eval_str(cond, fr))
+                condv = True if cond is True else eng.eval_merged(lambda: eng.truth(eng.eval_str(cond, fr)))
                 if isinstance(condv, bool) and not condv:
                     continue
                 if (isinstance(condv, bool) or eng.branch(condv)) and eng.branch_fresh("raises_%s_%s" % (fi.name, exc)):
@@ -689,6 +693,8 @@ class World:
             if res is None:
                 res = self.fresh_result(eng, c, fi)
                 ens = list(c.ensures)
+            if c.result_elem and isinstance(res, VList) and not res.concrete():
+                self.wrap_elem_pred(eng, res, c.result_elem, fi)
             fr.locals["result"] = res
             defined = set()
             if c.ensures_assumed:
@@ -841,6 +847,41 @@ class World:
             return False
         raise OutOfSubset("isinstance(%r, %s)" % (v, n))
 
+    def wrap_elem_pred(self, eng, lst, pred, fi):
+        inner = lst.get
+        seen = set()
+
+        def get(i):
+            v = inner(i)
+            key = z3.simplify(zint(i)).sexpr()
+            if key not in seen:
+                seen.add(key)
+                ef = Frame(None, None, {"elem": v}, "spec/specs.py")
+                eng.assume(eng.eval_merged(lambda: eng.truth(eng.eval_str(pred, ef))))
+            return v
+
+        lst.get = get
+
+    def alias_requires(self, eng, clause, fr):
+        """`requires A.f is B.g` over object-valued fields: the precondition is an aliasing fact; make the
+        two paths denote the same symbolic object."""
+        tree = self.parse_expr(clause)
+        if not (isinstance(tree, ast.Compare) and len(tree.ops) == 1 and isinstance(tree.ops[0], ast.Is)
+                and isinstance(tree.left, ast.Attribute)):
+            return False
+        rhs = eng.force(eng.eval(tree.comparators[0], fr))
+        if not isinstance(rhs, VObj):
+            return False
+        holder = eng.force(eng.eval(tree.left.value, fr))
+        if not isinstance(holder, VObj):
+            return False
+        cur = holder.fields.get(tree.left.attr)
+        if cur is rhs:
+            return True
+        holder.fields[tree.left.attr] = rhs
+        holder.entry[tree.left.attr] = rhs
+        return True
+
     def use_lemma(self, eng, lname, binds, fr):
         """Instantiate a lemma (itself an obligation of the same run) at the given terms."""
         lem = self.lemmas[lname]
@@ -904,6 +945,8 @@ class World:
                 tgt = eng.force(eng.eval_str(base, fr))
                 tgt.fields[attr] = eng.eval_str(expr, fr)
             for r in c.requires:
+                if world.alias_requires(eng, r, fr):
+                    continue
                 eng.assume(eng.eval_merged(lambda r=r: eng.truth(eng.eval_str(r, fr))))
             for lname, binds in c.use_lemmas:
                 world.use_lemma(eng, lname, binds, fr)
@@ -912,6 +955,8 @@ class World:
             oldfr.contract = c
             oldfr.old = None
             snap_g = snapshot(eng.ghost)
+            oldfr.ghostview = snap_g
+            fr.old = oldfr
             eng.old_ghost = snap_g
             eng.old_gstate = None
             result = NONE
@@ -924,6 +969,7 @@ class World:
                 raised = r
             except (BreakEx, ContinueEx):
                 raise OutOfSubset("break/continue outside loop")
+            eng.exits = getattr(eng, "exits", 0) + 1
             post = Frame(fi, fr.selfcls, dict(fr.locals), fi.relfile)
             # parameters in postconditions refer to the (possibly mutated) objects; rebinding of
             # parameter *names* inside the body does not affect the caller: use entry bindings
@@ -936,6 +982,16 @@ class World:
             if raised is None:
                 post.locals["result"] = result
                 post.locals["raised"] = NONE
+                if c.result_elem and not canary:
+                    rl = eng.force(result)
+                    if isinstance(rl, VList):
+                        idx = z3.Int(eng.fresh_name("elem_index"))
+                        n = zint(eng.list_len(rl))
+                        if eng.branch(z3.And(idx >= 0, idx < n)):
+                            ef = Frame(None, None, {"elem": eng.list_get(rl, idx)}, "spec/specs.py")
+                            eng.oblige("%s.result_elem" % label, _clause(eng, c.result_elem, ef), kind="ensures", note="for every element: " + c.result_elem)
+                        else:
+                            eng.oblige("%s.result_elem" % label, True, kind="ensures", note="for every element: " + c.result_elem)
                 for i, cl in enumerate(ensures):
                     nm = "%s.ensures[%d]" % (label, i) if not canary else "%s.canary" % label
                     eng.oblige(nm, _clause(eng, cl, post), kind="ensures" if not canary else "canary", note=cl)
